@@ -23,7 +23,7 @@ ASSUMPTIONS = ["dyadic cell bounds are exact in float64 (depth <= 6)",
 N = {"quick": 32, "thorough": 900}
 REQUIRE = {"quick": {"direct_refines": 300, "max_depth_refusals": 100, "run_steps": 120, "run_refines": 40, "runs_terminated": 10,
                      "pareto_declared_nodes": 5, "dims_1": 30, "dims_3": 30, "deep_ad_runs": 16, "gate_openings_seen_deep": 8, "big_tree_nodes_audited": 15000}}
-TIMEOUT = {"quick": 1500, "thorough": 7200}
+TIMEOUT = {"quick": 1500, "thorough": 14400}
 
 
 def vol(cell):
